@@ -546,8 +546,13 @@ class norm_mult_atom(Conv):
             # Left side has more than one atom. Compare last atom with b
             m1, m2 = dest_atom(t.arg1.arg), dest_atom(t.arg)
             if m1 == m2:
-                pt = pt.on_rhs(rewr_conv('real_mult_assoc', sym=True),
-                               arg_conv(combine_atom(self.conds)))
+                pt2 = pt.on_rhs(rewr_conv('real_mult_assoc', sym=True),
+                                arg_conv(combine_atom(self.conds)))
+                if pt2.rhs.arg.is_times():
+                    # The two atoms could not be combined (positivity of the
+                    # body is not known): keep the product left-nested.
+                    return pt
+                pt = pt2
                 if pt.rhs.arg.is_one():
                     pt = pt.on_rhs(rewr_conv('real_mul_rid'))
                 return pt
